@@ -7,6 +7,7 @@ CONSTANTS
   AnyOrder = FALSE
   NB = 3
   MaxOps = 9
+  Group = "none"
   Record = TRUE
   Slice = 0
   NSlices = 1
